@@ -43,6 +43,7 @@ VARIANTS = [
     keep('P-retry-clock-hoisted', (TR, "        if node in self._lastConnectAttempt and monotonicTime() - self._lastConnectAttempt[node] < self._syncObj.conf.connectionRetryTime:\n            return False\n        self._lastConnectAttempt[node] = monotonicTime()", "        now = monotonicTime()\n        if node in self._lastConnectAttempt and now - self._lastConnectAttempt[node] < self._syncObj.conf.connectionRetryTime:\n            return False\n        self._lastConnectAttempt[node] = monotonicTime()")),
     keep('P-send-count-branches', (T, "            if res < 0:\n                self.disconnect()\n                return False\n            if res == 0:\n                return False\n            self.__writeBuffer = self.__writeBuffer[res:]\n            return True\n", "            if res > 0:\n                self.__writeBuffer = self.__writeBuffer[res:]\n                return True\n            if res < 0:\n                self.disconnect()\n            return False\n")),
     keep('P-members-via-local-voters', (S, "cluster = self.__otherNodes | {self.__selfNode}", "voters = self.__otherNodes\n        cluster = voters | {self.__selfNode}")),
+    keep('P-head-drop-noop-guard', (J, "        journal = self.__journal[entryTo:]\n        self.clear()", "        if entryTo <= 0:\n            return\n        journal = self.__journal[entryTo:]\n        self.clear()")),
     keep('P-rename-commitIndex', (S, '__raftCommitIndex', '__commitIdx')),
     keep('P-rename-votedFor', (S, '__votedForNodeId', '__votedFor')),
     keep('P-rename-log', (S, '__raftLog', '__journal')),
